@@ -376,9 +376,7 @@ func c16ParseOne[T int8 | int16 | int32 | int64 | int | uint8 | uint16 | uint32 
 // c16Class names the known-finding class an input belongs to ("" = none). Classes are defined by
 // the input alone (not by the outcome) and listed in /verif/known_findings.json.
 func c16Class(pos, lit string) string {
-	if pos == "mapkey" && lit == "null" {
-		return "C16-mapkey-null"
-	}
+	// (the one class there was, the map key "null", was repaired)
 	return ""
 }
 
